@@ -16,9 +16,11 @@ auto, edge-multi with any kink-fit oracle, group triggers) and ALL control histo
 * `C01_oracle_sound`  a record satisfying `RecOK` and the length clause is accepted by the
                       run-time oracle `chkRec` that judges the implementation's records.
 
-The "never crashes" half is in `Props/C01NoCrash.lean`.
+* `C01_no_crash_nonEMT` no buffer content, trigger state or block length makes the edge / level /
+                      auto passes or their record cuts index out of range (`3 ≤ npre < nsamp`).
 -/
 import DastardV.Lemmas.Pipe4
+import DastardV.Lemmas.Passes
 import DastardV.Model.PipeJudge
 namespace DastardV.C01
 open Trig Pipe
@@ -351,5 +353,19 @@ theorem C01_oracle_sound {G : List Nat} {f0 first t0 period : Int} {signed : Boo
     have := hfix hk (by simpa using hv)
     omega
   · rfl
+
+/-! ### No crash -/
+
+/-- **No stream content or block pattern crashes edge / level / auto triggering**: for every
+buffer (any length, any values), every trigger state outside edge-multi and every hold-off
+reference, `TriggerData` returns — no read and no record cut leaves the buffer — provided the
+record lengths satisfy the rule `ConfigurePulseLengths` enforces. -/
+theorem C01_no_crash_nonEMT (c : Chan) (zt : ZT) (hv : 3 ≤ c.npre ∧ c.npre < c.nsamp)
+    (hem : c.ts.edgeMulti = false) : ∃ c' recs, triggerData c zt = some (c', recs) :=
+  triggerData_nonEMT_some c zt hv hem
+
+/-- the hypotheses are satisfiable by an ordinary channel -/
+example : ∃ c : Chan, (3 ≤ c.npre ∧ c.npre < c.nsamp) ∧ c.ts.edgeMulti = false ∧ c.buf.length = 5 :=
+  ⟨{ npre := 3, nsamp := 4, buf := [1, 2, 3, 400, 5], ts := { edge := true, edgeRising := true } }, by decide, rfl, rfl⟩
 
 end DastardV.C01
